@@ -52,11 +52,12 @@
      IoRCapp  then, after `self.request` has been loaded, the append          [LQueued]
              (IoRCappX: cancel() has replaced self.requests by a new list in between: the append
              goes to the old list and is lost);
-             or a head with Expect: 100-continue: 224 send_continue(), whose _flush_some
-             (do_close=True) may hit a disconnect errno -> handle_close      [DHandleClose]
-             or raise another OSError (item IAbort): the exception leaves received() through
-             the `with` (release) and handle_read; wasyncore.read() -> handle_error ->
-             handle_close (IoHRc2)
+             or a head with Expect: 100-continue: 224 send_continue(), whose flush
+             _flush_exception(self._flush_some, do_close=True) may hit a disconnect errno
+             -> handle_close                                                 [DHandleClose]
+             or another OSError -> 129 W will_close := True                  [DFlushErrIO]
+             (a close decision taken by the I/O thread WHILE it holds requests_lock and is in
+             the middle of the loop: the requests that follow in the same data are still queued)
      IoRClen 233                                            R requests (len == 1)
      IoRCadd 238                                            server.add_task(self)
      IoRCrel end of the `with`                              release requests_lock
@@ -106,7 +107,8 @@
      WKeep3   499                                           R requests (non-empty?)
      WKeepAdd 500                                           server.add_task(self)
      WKeepE   502 R connected (elif), 503-506, 511 send_continue(do_close=False): the worker's
-              flush never runs handle_close (a disconnect errno makes send return 0)
+              flush never runs handle_close (a disconnect errno makes send return 0); it goes
+              through _flush_exception: another OSError -> W will_close := True [DFlushErrW]
      WKeep5                                                 release requests_lock
               and the rest of service() (513-516: R connected, pull_trigger, W last_activity),
               which touches nothing the model keeps                          [LServiceEnd]
@@ -147,8 +149,11 @@ Inductive dkind :=
 | DWorkerClose   (* service(): close_when_flushed := True under requests_lock *)
 | DFlushed       (* handle_write: close_when_flushed and nothing left: will_close := True *)
 | DMaint         (* maintenance: will_close := True *)
-| DFlushErrIO    (* _flush_exception inside handle_write (I/O thread): will_close := True *)
-| DFlushErrW     (* _flush_exception(do_close=False) on a worker: will_close := True   (F22) *)
+| DFlushErrIO    (* _flush_exception on the I/O thread (handle_write; send_continue inside
+                    received()): will_close := True *)
+| DFlushErrW     (* _flush_exception(do_close=False) on a worker (write_soon,
+                    _flush_outbufs_below_high_watermark, send_continue at the tail of service()):
+                    will_close := True   (F22) *)
 | DHandleClose   (* handle_close (always on the I/O thread): connected := False *)
 | DEof           (* handle_read: connected := False *)
 | DCancelWC      (* cancel(): will_close := True *)
@@ -193,16 +198,16 @@ Inductive wpc :=
 
 Inductive sdpc := SdIdle | SdC1 | SdC2 | SdC3.
 
+(* how a flush through _flush_exception ends: sent something / nothing, an OSError that is not a
+   disconnect (will_close := True), a disconnect errno with do_close=True (handle_close) *)
+Inductive fres := FOk | FErr | FDisc.
+
 (* one item of received data *)
 Inductive item :=
 | IReq (err : bool)      (* a completed, non-empty request; err: the parser flagged an error *)
-| ICont (dc : bool)      (* a head expecting 100-continue; dc: the flush hit a disconnect errno *)
-| IAbort.                (* a head expecting 100-continue whose flush raised another OSError: the
-                            exception leaves received() (releasing the lock) and handle_read;
-                            wasyncore.read() calls handle_error -> handle_close *)
+| ICont (f : fres).      (* a head expecting 100-continue, and how the flush of send_continue ends *)
 
 Inductive recvres := RData (items : list item) | REof | RErr.
-Inductive fres := FOk | FErr | FDisc.
 
 Inductive ioenv :=
 | ENone
@@ -373,10 +378,11 @@ Definition step_io (s : state) (e : ioenv) : option (state * list label) :=
       match items s with
       | [] => let s1 := set_rlock s None in Some (set_io s1 (after_read s1), [])
       | IReq e :: rest => Some (set_io s IoRCapp, [])
-      | ICont dc :: rest =>
-          if dc then Some (set_items (decide (handle_close s) DHandleClose) rest, [LDecide DHandleClose])
-          else Some (set_items s rest, [])
-      | IAbort :: _ => Some (set_io (set_rlock (set_items s []) None) IoHRc2, [])
+      | ICont FOk :: rest => Some (set_items s rest, [])
+      | ICont FDisc :: rest =>
+          Some (set_items (decide (handle_close s) DHandleClose) rest, [LDecide DHandleClose])
+      | ICont FErr :: rest =>
+          Some (set_items (decide (set_wc s true) DFlushErrIO) rest, [LDecide DFlushErrIO])
       end
   | IoRCapp, ENone =>
       match items s with
@@ -456,6 +462,8 @@ Definition step_wk (s : state) (w : nat) (e : wkenv) : option (state * list labe
       end
   | WKeepAdd k, WNone => Some (set_wk (set_queue s (S (queue s))) w (WKeep5 k), [LAddTask (ByW w)])
   | WKeepE k, WNone => Some (set_wk s w (WKeep5 k), [])
+  | WKeepE k, WFlushErr =>
+      Some (set_wk (decide (set_wc s true) DFlushErrW) w (WKeep5 k), [LDecide DFlushErrW])
   | WKeep5 k, WNone => Some (set_wk (set_rlock s None) w WIdle, [LServiceEnd k])
   | _, _ => None
   end.
